@@ -36,7 +36,7 @@ stub_property!(c12, C12, "C12");
 stub_property!(c13, C13, "C13");
 stub_property!(c14, C14, "C14");
 stub_property!(c15, C15, "C15");
-stub_property!(c16, C16, "C16");
+pub mod c16;
 pub mod c17;
 stub_property!(c18, C18, "C18");
 stub_property!(c19, C19, "C19");
